@@ -157,10 +157,6 @@ class RunStream(C.Stream):
     def request(self, case, obs):
         if obs.get("graph") is None:
             return None
-        if case.get("model_if") == "empty-step" and not G.empty_step_ok():
-            # finding D39: the unchanged session.py never ends a step whose description is "" (the model is the repaired
-            # behaviour); until /repo has the fix the hand-written witnesses are judged by the oracles alone
-            return None
         threads = [[int(k), v["parent"]] for k, v in obs.get("threads", {}).items() if v.get("parent") is not None]
         return {"project": case["project"], "graph": obs["graph"], "trace": to_records(obs), "threads": threads}
 
